@@ -17,6 +17,18 @@ pub struct JoinAll<F: Future> {
 
 impl<F: Future> Unpin for JoinAll<F> {}
 
+impl<F: Future> Drop for JoinAll<F> {
+    fn drop(&mut self) {
+        // the buffer is empty once the outputs have been handed out
+        for i in 0..self.output.len() {
+            if self.queue.tasks.get(i).is_none() {
+                // SAFETY: slot `i` was vacated by its future completing, so `output[i]` has been written
+                unsafe { self.output[i].assume_init_drop() }
+            }
+        }
+    }
+}
+
 /// Creates a future which represents a collection of the outputs of the futures
 /// given.
 ///
